@@ -188,6 +188,13 @@ static void CheckParsed(const Message & M, const Message & ref, bool nan, uint32
    }
    else if (fresh) vh::stat("unspecified_equality_with_nan_items");   // IEEE comparison inside ==: only consistency against the panel is demanded
    CheckFieldwise(M, ref, p, stage);
+   // GetInfo()'s fixed_size answer ("whether the field's objects are all the same size") must not depend on the representation the trip changed
+   for (MessageFieldNameIterator it = p.GetFieldNameIterator(); it.HasData() && !caseBad; it++) {
+      uint32 t = 0, c = 0; bool fa = false, fb = true;
+      if (M.GetInfo(it.GetFieldName(), &t, &c, &fa).IsError() || p.GetInfo(it.GetFieldName(), &t, &c, &fb).IsError() || fa != fb || fb != (WireItemSize(t) > 0)) Fail(st + "|fixed-size-flag", vh::fmt("GetInfo(.., &fixed_size) on a %s field: %d before, %d after the trip", TypeCodeName(t), (int)fa, (int)fb));
+   }
+   // operator< (what code, number of fields, flattened size) is irreflexive and gives the same answers before and after the trip
+   if (!caseBad && ((p < p) || (ref < p) || (p < ref))) Fail(st + "|less-than", "operator< between the original (without pointer/tag fields) and the parsed Message, or of a Message with itself, is true");
    (void)nonflat;
 }
 
@@ -227,7 +234,8 @@ static void CheckRoundTrip(const Message & M, const Message & prev, uint64_t sal
       const Message * panel[5] = {&pa, &pb, &pc, &pd, &prev};
       for (int i = 0; i < 5 && !caseBad; i++) {
          const Message & P = *panel[i];
-         if ((*ref == P) != (m2 == P) || (P == *ref) != (P == m2)) Fail("equality|panel", vh::fmt("panel member %d: original==P %d, parsed==P %d, P==original %d, P==parsed %d", i, (int)(*ref == P), (int)(m2 == P), (int)(P == *ref), (int)(P == m2)));
+         if ((*ref < P) != (m2 < P) || (P < *ref) != (P < m2) || ((m2 < P) && (P < m2))) Fail("equality|panel-less-than", vh::fmt("panel member %d: operator< answers differ between the original and the parsed Message, or hold both ways", i));
+         else if ((*ref == P) != (m2 == P) || (P == *ref) != (P == m2)) Fail("equality|panel", vh::fmt("panel member %d: original==P %d, parsed==P %d, P==original %d, P==parsed %d", i, (int)(*ref == P), (int)(m2 == P), (int)(P == *ref), (int)(P == m2)));
       }
       if (!caseBad && (m2 == pb || pb == m2)) Fail("equality|what-ignored", "a Message with a different what code compares equal");
       if (!caseBad && hasField && (m2 == pc || pc == m2)) Fail("equality|field-ignored", "a Message lacking the first field compares equal");
@@ -506,6 +514,7 @@ private:
 
 static void Regress()
 {
+   { const ConstMessageRef & e = GetEmptyMessageRef(); Expect(e() && e()->IsEmpty() && e()->what == 0 && e()->FlattenedSize() == 12 && GetEmptyMessage().IsEmpty() && GetMessagePool() != NULL && !e()->IsFixedSize() && e()->TypeCode() == B_MESSAGE_TYPE, "doc-empty-message", "GetEmptyMessageRef()/GetEmptyMessage(): an empty Message; IsFixedSize() false, TypeCode() B_MESSAGE_TYPE"); }
    { Message m; Reg("empty Message", m); Expect(m.FlattenedSize() == 12, "doc-12-bytes", "Message.h: 'A flattened Message can be as small as 12 bytes'"); }
    // representation edge states (design probe rt.cpp)
    { Message m(1); MUST(m.AddInt32("i", 1)); MUST(m.AddInt32("i", 2)); MUST(m.RemoveData("i", 1)); Reg("int32 array-of-one", m); }
